@@ -239,11 +239,9 @@ Section Forward.
         * (* the parent's cost just decreased (or it is re-recorded): still below cn *)
           exists nxt, e', (cc + h cur nxt), cn. repeat split; auto.
           -- now rewrite Nat.eqb_refl.
-          -- destruct (Nat.eqb_spec n nxt); [contradiction | assumption].
           -- rewrite Hp in Hlt. lia.
         * exists p, e', cp, cn. repeat split; auto.
-          -- destruct (Nat.eqb_spec p nxt); [contradiction | assumption].
-          -- destruct (Nat.eqb_spec n nxt); [contradiction | assumption].
+          destruct (Nat.eqb_spec p nxt); [contradiction | assumption].
     - intros p c [H | H].
       + inversion H; subst. rewrite Nat.eqb_refl. congruence.
       + destruct (Nat.eqb_spec c nxt); [congruence | eapply (si_frontier st I); eauto].
